@@ -94,7 +94,8 @@ def weight_vectors(thorough):
         yield 'uniform', tuple([1.0 / n] * n)
         yield 'uniform-int', tuple([1] + [0] * (n - 1))
         yield 'all-missing', tuple(['MISSING'] * n)
-    for v in ((0.5004, 0.5004), (0.3334, 0.3333, 0.3333), (0.9, 0.2), (0.33, 0.33, 0.33), (0.5, 0.5, 0.5),
+    for v in ((0.5002, 0.5002), (0.3333, 0.3333, 0.3333), (0.50001, 0.50001), (0.5000004, 0.5000004), (0.2, 0.3, 0.4996),
+              (0.5004, 0.5004), (0.3334, 0.3333, 0.3333), (0.9, 0.2), (0.33, 0.33, 0.33), (0.5, 0.5, 0.5),
               (0.0, 0.0), (0.25, 0.25, 0.25, 0.2501), (1e-7, 1 - 1e-7), (0.9995, 0.0005), (0.4996, 0.5004)):
         yield 'near-miss', v
     base = {2: (0.25, 0.75), 3: (0.2, 0.3, 0.5), 4: (0.1, 0.2, 0.3, 0.4)}
@@ -308,6 +309,34 @@ def worker_b(col, item, tier, seed):
             col.fail(case0, r[0], {'stageWeights': list(sm.stageWeights)}, sig='B:%s' % r[1])
         else:
             col.outcome('B:weights-ok')
+        if n > 5:
+            # many stages: the first m stages finished, stage m current with progress p, the rest not started
+            given_ok = given_valid(given) if all(is_num(g) for g in given) else False
+            for m_done in range(n):
+                for p in (0.0, 0.5, 1.0):
+                    ctrl.current = m_done
+                    ctrl.finished = list(range(m_done))
+                    ctrl.in_transit = []
+                    ctrl.progress = {m_done: p}
+                    ctrl.transition_at = None
+                    check(False)
+                    total = exp.statusFile.totalProgress()
+                    col.evaluated()
+                    c = dict(case0, current=m_done, partition='first-%d-finished' % m_done, progress=[p])
+                    if given_ok:
+                        want = math.fsum(float(g) for g in given[:m_done]) + p * float(given[m_done])
+                        if not isinstance(total, (int, float)) or abs(total - want) > 1e-6:
+                            col.outcome('B:FAIL:partial-progress')
+                            col.fail(c, 'with stages 0..%d finished and stage %d at %.1f the total progress is %r, the package weights give %r' % (
+                                m_done - 1, m_done, p, total, want), {'total': total, 'stageWeights': list(sm.stageWeights)}, sig='B:partial-progress')
+                            continue
+                    if not isinstance(total, (int, float)) or not math.isfinite(total) or total < -EPS_OUT or total > 1 + EPS_OUT:
+                        col.outcome('B:FAIL:progress-range')
+                        col.fail(c, 'total progress %r outside [0,1]' % (total,), {'total': total}, sig='B:progress-range')
+                    else:
+                        col.outcome('B:many-stages-progress-ok')
+            col.sample(dict(case0, stageWeights=list(sm.stageWeights)))
+            return
         # progress: every current stage, every partition of the others, every progress assignment
         others_states = ('finished', 'transit', 'notstarted')
         for cur in range(n):
@@ -388,16 +417,29 @@ def c_docs():
     return docs
 
 
+def c_dowhile():
+    from verif.vsched import ctl
+    doc, meta = ctl.workflows()['dowhile']
+    doc = dict(doc)
+    doc['status-report'] = {0: {'stage-weight': 0.7}, 1: {'stage-weight': 0.3}}
+    ex = ctl.DOWHILE_EXTRAS['dowhile']
+    return doc, ex
+
+
 def worker_c(col, item, tier, seed):
     """A real StatusMonitor asks the REAL Controller (under the controlled runtime) at every choice point of an execution."""
     import experiment.runtime.monitor
     import experiment.runtime.output
     from verif.vsched import harness as h
     di, durs, prefix = item
-    doc = c_docs()[di]
-    script = {'stage0.A': [['Success', durs[0]]], 'stage0.A2': [['Success', durs[1]]], 'stage1.B': [['Success', durs[2]]],
-              'stage1.B2': [['Success', durs[3]]], 'stage2.C': [['Success', 0.0]]}
-    scn = h.Scenario(doc, script=script)
+    if di == 'dowhile':
+        doc, ex = c_dowhile()
+        scn = h.Scenario(doc, script={'stage1.C': [['Success', durs[0]]]}, extra_files=ex['extra_files'], exit_files=ex['exit_files'])
+    else:
+        doc = c_docs()[di]
+        script = {'stage0.A': [['Success', durs[0]]], 'stage0.A2': [['Success', durs[1]]], 'stage1.B': [['Success', durs[2]]],
+                  'stage1.B2': [['Success', durs[3]]], 'stage2.C': [['Success', 0.0]]}
+        scn = h.Scenario(doc, script=script)
     h.install()
     h.H.on_launch = None
     holder = {}
@@ -450,6 +492,7 @@ def worker_c(col, item, tier, seed):
 
 def run(ctx):
     items = [(di, durs, []) for di in range(3) for durs in ([0, 0, 0, 0], [0, 40, 0, 0], [0, 40, 7, 0], [3, 12, 7, 0], [0, 40, 0, 9])]
+    items += [('dowhile', [0], []), ('dowhile', [12], [])]
     ctx.pmap('verif.props.c20', 'worker_c', items, maxtasksperchild=4)
     ctx.count('part_c_executions_canonical', len(items))
     if ctx.thorough:
@@ -478,6 +521,13 @@ def run(ctx):
                 continue
             seen.add(k)
             items.append((n, jsonable(ws)))
+    for n in (11, 12, 21):
+        base = [float(i + 1) for i in range(n)]
+        tot = sum(base)
+        ws = [round(b / tot, 6) for b in base]
+        ws[-1] = round(1.0 - sum(ws[:-1]), 6)
+        items.append((n, ws))
+        items.append((n, ['MISSING'] * n))
     ctx.count('part_b_experiments', len(items))
     ctx.pmap('verif.props.c20', 'worker_b', items, maxtasksperchild=20)
 
